@@ -22,9 +22,44 @@ def _anchors(verif, prop):
         p = json.loads(line)
         if p["id"] == prop:
             a = p["anchors"]
-            where = [m["where"] for m in a.get("mechanism", [])] + [s["where"] for s in a.get("state", [])]
-            return list(a.get("files", [])), where
+            items = list(a.get("mechanism", [])) + list(a.get("state", []))
+            return list(a.get("files", [])), [(m.get("where", ""), m.get("name", "")) for m in items]
     return [], []
+
+
+def resolve(funcs, rel, where):
+    """The functions of file `rel` that the anchors point at.  Anchor line numbers were taken at the pinned commit and
+    drift with every fix, so a function is anchored when (a) it contains the anchor line, or starts within 6 lines of
+    it, or (b) its qualified name (`Class.func`) or bare name occurs as a word in the anchor's `name` text.
+    funcs: [(qualname, first line incl. decorators, last line, def line)] -> subset, in file order."""
+    import re
+
+    chosen = set()
+    for w, name in where:
+        r, _, ln = w.rpartition(":")
+        if r != rel:
+            continue
+        if ln.isdigit():
+            ln = int(ln)
+            inside = [f for f in funcs if f[1] <= ln <= f[2]]
+            if inside:
+                chosen.add(max(inside, key=lambda t: t[1]))
+            for f in funcs:
+                if abs(f[3] - ln) <= 6:
+                    chosen.add(f)
+        words = set(re.findall(r"[A-Za-z_][A-Za-z_0-9]*(?:\.[A-Za-z_][A-Za-z_0-9]*)*", name))
+        bare = set()
+        for wd in words:
+            bare.add(wd)
+            if "." in wd:
+                bare.add(wd.split(".")[-1])
+        for f in funcs:
+            q = f[0]
+            if q in words or any(q.endswith("." + wd) for wd in words if "." in wd):
+                chosen.add(f)
+            elif q.split(".")[-1] in bare and len(q.split(".")[-1]) >= 5 and not q.split(".")[-1].startswith("__"):
+                chosen.add(f)
+    return sorted(chosen, key=lambda t: t[1])
 
 
 def start(verif, repo, prop):
@@ -124,24 +159,13 @@ def stop():
                       "fraction": round(len(hit & body_exe) / max(1, len(body_exe)), 3)}
         fun_tables[rel] = (body_exe, hit, funcs)
     anchored = {}
-    for w in _state.get("where", []):
-        rel, _, ln = w.rpartition(":")
-        if rel not in fun_tables or not ln.isdigit():
-            continue
-        ln = int(ln)
-        body_exe, hit, funcs = fun_tables[rel]
-        # innermost function containing the anchor line; else the nearest function starting within 12 lines
-        inside = [f for f in funcs if f[1] <= ln <= f[2]]
-        if inside:
-            f = max(inside, key=lambda t: t[1])
-        else:
-            near = [f for f in funcs if abs(f[1] - ln) <= 12]
-            if not near:
+    for rel, (body_exe, hit, funcs) in fun_tables.items():
+        for f in resolve(funcs, rel, _state.get("where", [])):
+            lines = sorted(l for l in body_exe if f[1] <= l <= f[2])
+            if not lines:
                 continue
-            f = min(near, key=lambda t: abs(t[1] - ln))
-        lines = sorted(l for l in body_exe if f[1] <= l <= f[2])
-        missed = [l for l in lines if l not in hit]
-        anchored[f"{rel}:{f[0]}"] = {"lines": len(lines), "executed": len(lines) - len(missed), "not_executed": missed[:60]}
+            missed = [l for l in lines if l not in hit]
+            anchored[f"{rel}:{f[0]}"] = {"lines": len(lines), "executed": len(lines) - len(missed), "not_executed": missed[:60]}
     tot = sum(v.get("executable_lines_in_bodies", 0) for v in files.values())
     got = sum(v.get("executed", 0) for v in files.values())
     a_tot = sum(v["lines"] for v in anchored.values())
